@@ -38,7 +38,7 @@ var repoDir = "/repo"
 var mainProps = map[string]bool{"C09": true, "C10": true, "C11": true}
 
 // properties that additionally have units in the package-main worker (registered there under this name)
-var alsoMain = map[string]string{"C07": "C07main", "C01": "C01main"}
+var alsoMain = map[string]string{"C07": "C07main", "C01": "C01main", "C06": "C06main"}
 
 type knownEntry struct {
 	Status   string `json:"status"` // "known" | "fixed"
